@@ -264,4 +264,13 @@ def nested_shapes():
                           {"name": "PartResult", "versions": "0+", "fields": [F("Index", "int32"), F("ErrorCode", "int16")]}]
     out.append(d)
     out.append(make_def("data", "0-1", "none", [F("Topics", "[]string"), F("UserData", "bytes", nullableVersions="0+", default="null"), F("Gen", "int32", versions="1+", default="-1")], name="SomeData"))
+    # tagged inside tagged: a tagged struct (and a tagged struct array) whose own members are tagged - the value of the
+    # outer tagged field is encoded while another tagged field is being encoded (no shipped 3.9.0 class nests them)
+    for mk in ("request", "response"):
+        out.append(make_def(mk, "0-1", "0+", [F("Lead", "int8"),
+                                              F("Outer", "OuterT", tag=0, taggedVersions="0+", fields=[F("Aa", "int32"), F("Bb", "int16", tag=0, taggedVersions="0+"),
+                                                                                                      F("Cc", "string", tag=1, taggedVersions="0+")]),
+                                              F("Many", "[]ItemT", tag=1, taggedVersions="0+", fields=[F("Ident", "int32"), F("Note", "string", tag=0, taggedVersions="0+"),
+                                                                                                     F("Deep", "DeepT", tag=1, taggedVersions="0+", fields=[F("Zz", "int64", tag=0, taggedVersions="0+", default="-1")])]),
+                                              F("Trail", "int16")]))
     return out
